@@ -1146,6 +1146,7 @@ package go_clipper2
 //@ func getSegmentIntersectPt variant box
 //@   props C01
 //@   tier B
+//@   forget t
 //@   requires dom(ln1a,29) && dom(ln1b,29) && dom(ln2a,29) && dom(ln2b,29)
 //@   ensures [within-box] result1 ==> (min(ln1a.X, ln1b.X) <= result0.X && result0.X <= max(ln1a.X, ln1b.X) && min(ln1a.Y, ln1b.Y) <= result0.Y && result0.Y <= max(ln1a.Y, ln1b.Y))
 
